@@ -297,7 +297,7 @@ func vfH_C13_select(tier int) {
 		}
 		g.field()
 	}
-	switch g.pick(4) {
+	switch vfChoice(4) { // the source form combines freely with the one odd construct elsewhere
 	case 0:
 		g.raw(" FROM m")
 	case 1:
